@@ -273,7 +273,7 @@ pub(crate) fn alpha_truth(a: &Alpha) -> bool {
     }
 }
 
-//% props=C04,C07,C08 tier=quick kind=P timeout=1200 pair=Segment::apply_seg_mods,Alpha::as_binary clause="A2: a bound alpha (or its inverse) on a feature behaves as the binary value it carries"
+//% props=C04,C07,C08 tier=quick tier.C07=thorough tier.C08=thorough kind=P timeout=1200 pair=Segment::apply_seg_mods,Alpha::as_binary clause="A2: a bound alpha (or its inverse) on a feature behaves as the binary value it carries"
 #[kani::proof]
 #[kani::unwind(28)]
 fn k3_apply_alpha_feature() {
@@ -421,4 +421,19 @@ fn k3_diacritic_side() {
     while q < 8 { dm2.nodes[q] = am.nodes[q]; q += 1; }
     assert!(o.match_modifiers(&dm2).is_ok(), "a segment matches its own as_modifiers()");
     assert!(am.nodes[3] == if o.place.raw_for_verif().is_some() { POS } else { NEG });
+}
+
+// ---- discharges (for the real, compiled derive expansions) the "derive(PartialEq) is structural" assumptions
+// ---- that the Verus kernels make for NodeKind and Segment (Verus does not look inside derive expansions)
+//% props=C18,C04,C05,C08,C02 tier=quick kind=P covers=assumed.derive_eq pair=<NodeKind as PartialEq>::eq,<Segment as PartialEq>::eq clause="derived == on NodeKind and Segment is structural equality"
+#[kani::proof]
+#[kani::unwind(9)]
+fn k0_derived_eq_is_structural() {
+    let a = any_segment();
+    let b = any_segment();
+    assert!((a == b) == (a.root == b.root && a.manner == b.manner && a.laryngeal == b.laryngeal && a.place.raw_for_verif() == b.place.raw_for_verif()), "Segment == is field-wise");
+    let i: usize = kani::any();
+    let j: usize = kani::any();
+    kani::assume(i < 8 && j < 8);
+    assert!((NodeKind::from_usize(i) == NodeKind::from_usize(j)) == (i == j), "NodeKind == is variant identity");
 }
